@@ -34,6 +34,8 @@ ENVC = {None: 0, "x": 1, "y": 2}
 ABS = {"k": "abs", "i": 0, "d": 0, "e": 0}
 FILES = {"i.txt": "i", "d.txt": "d"}
 CAP = 2
+# clauses that are the shape of a known finding (the TLA+ side decides the shape, see Job.tla "settled")
+KF_CLAUSES = {"change_made_during_the_startup_scan_was_missed": "F31-change-during-startup-scan-missed"}
 # the functions whose commits are transactions of a job (everything else: hash jobs, start-up, watcher)
 JOB_FNS = {"pop_next_job", "_new_run", "_finalize_failed_run", "_reset_step_to_pending", "validate_dynamic_job", "try_skip_job",
            "execute_job", "amend_step"}
@@ -135,6 +137,15 @@ def scripted_histories():
                         ph.update(cfg=cfg, seed=100 + 7 * k + j)
                     phases.append(ph)
                 res.append({"tid": f"jb-s{k}-{mode}{njob}", "phases": phases})
+    # (finding F31) a file changes while the director starts up, right after the start-up scan hashed it;
+    # the watch-mode rebuilds that follow never learn about it, the next restart does
+    for k, n in enumerate([2, 3, 4, 5, 6]):
+        cfg = {"njob": 1, "defer_cap": CAP}
+        res.append({"tid": f"jb-f{k}", "phases": [
+            {"edits": [["set", "plan.py", "v1"], ["set", "i.txt", "a"], ["set", "d.txt", "a"]], "how": "restart", "fresh": True, "cfg": cfg, "seed": k},
+            {"edits": [], "how": "restart", "cfg": cfg, "seed": k + 7, "during": [[n, ["set" if k % 2 else "del", "d.txt", "b"][:3 if k % 2 else 2]]]},
+            {"edits": [], "how": "watch"}, {"edits": [], "how": "watch"},
+            {"edits": [], "how": "restart", "cfg": cfg, "seed": k + 9}]})
     # only the permission bits of the input change
     for k, (mode, njob) in enumerate([("restart", 1), ("watch", 1), ("watch", 2)]):
         cfg = {"njob": njob, "defer_cap": CAP}
@@ -200,6 +211,7 @@ class Exporter:
         self.reads: dict[int, dict] = {}
         self.problems: list[str] = []
         self.keep_going = False
+        self.in_startup = False  # between the start of a director and its first build phase
         self.dirty = False  # somebody touched a file since StepUp last looked (start of the director / of the rebuild)
 
     def ocode(self, text):
@@ -238,7 +250,7 @@ class Exporter:
                 return
             self.dirty = True
             if self.started:
-                self.evs.append({"a": "edit", "f": f, "v": self.disk[f]})
+                self.evs.append({"a": "edit", "f": f, "v": self.disk[f], "su": self.in_startup})
         elif path == "o.txt":
             if kind == "raw":
                 self.odisk = self.ocode(ed[2])
@@ -248,7 +260,7 @@ class Exporter:
                 return
             self.dirty = True
             if self.started:
-                self.evs.append({"a": "edito", "c": self.odisk})
+                self.evs.append({"a": "edito", "c": self.odisk, "su": self.in_startup})
 
     def proj(self, st):
         n = st["nodes"]
@@ -276,9 +288,12 @@ class Exporter:
             if ev == "proc_start":
                 self.keep_going = bool(e["cfg"].get("keep_going"))
                 self.dirty = False
+                self.in_startup = True
                 if self.started:
                     self.evs.append({"a": "proc", "env": ENVC[self.env]})
                 self.sjobs = set()
+            elif ev == "report" and e.get("tag") == "PHASE":
+                self.in_startup = False
             elif ev == "ext_edit":
                 self.edit(e["edit"])
             elif ev == "phase_end":
@@ -438,7 +453,13 @@ def run(report, tier: str, seed: int, prop: str) -> dict:
         bad = v["bad"] if isinstance(v["bad"], list) else []
         if not bad:
             continue
-        b = bad[0]
+        # the first event that no known finding explains, else the first one
+        unl = [x for x in bad if x["clause"] not in KF_CLAUSES]
+        b = unl[0] if unl else bad[0]
+        kf = f"{KF_CLAUSES[b['clause']]}-{prop}" if b["clause"] in KF_CLAUSES else ""
+        if kf:
+            report.add_violation(b["clause"], v["id"], {}, kf=kf, tid=v["id"])
+            continue
         nbad += 1
         if nbad <= 8:
             case = by_tid[v["id"]]
